@@ -4,6 +4,8 @@ import (
 	"context"
 	"fmt"
 	"math/rand"
+	"os"
+	"runtime"
 	"strings"
 	"time"
 
@@ -180,6 +182,13 @@ func (g *group) establish() bool {
 		deadline := time.Now().Add(5 * time.Second)
 		for w.srv.SessManager.SessionPresent(sl.id) {
 			if time.Now().After(deadline) {
+				buf := make([]byte, 1<<20)
+				buf = buf[:runtime.Stack(buf, true)]
+				for _, gr := range strings.Split(string(buf), "\n\n") {
+					if strings.Contains(gr, "sessions.") {
+						fmt.Fprintln(os.Stderr, gr)
+					}
+				}
 				vh.Fatalf("session did not expire within 5 s (timeout %v)", sessionTimeout)
 			}
 			time.Sleep(10 * time.Millisecond)
@@ -213,9 +222,17 @@ func (g *group) establish() bool {
 
 // logoutTokens ends the logins the user made in this epoch (the login list is reference counted).
 func (g *group) logoutTokens() {
-	for _, t := range g.tokens {
+	for i, t := range g.tokens {
 		ctx := metadata.AppendToOutgoingContext(context.Background(), "authorization", t)
-		g.w.userInvoke(ctx, "Logout", &emptypb.Empty{}, &emptypb.Empty{})
+		err := g.w.userInvoke(ctx, "Logout", &emptypb.Empty{}, &emptypb.Empty{})
+		// drain: should a login have gone unnoticed, the last token keeps logging out until the server says the
+		// user is not logged in any more (each Logout takes one reference)
+		for n := 0; i == len(g.tokens)-1 && err == nil && n < 16; n++ {
+			err = g.w.userInvoke(ctx, "Logout", &emptypb.Empty{}, &emptypb.Empty{})
+			if err == nil {
+				g.w.res.Count("extra-logouts", 1)
+			}
+		}
 	}
 	g.tokens = nil
 }
@@ -308,7 +325,10 @@ func (g *group) runCell(r *rpcCase) {
 	}
 	c.selDB = dbOfClass(sv.sel)
 	tA := time.Now()
-	if r.spec.prepare != nil {
+	// administrator-side preparation makes the request valid (something to delete, a database to load ...).  With
+	// an invalid session it is the expensive part of a cell that is refused at the door: quick tier skips it there.
+	prepared := r.spec.prepare != nil && (fullPrepare || sv.st == "valid" || sv.st == "none")
+	if prepared {
 		r.spec.prepare(c)
 	}
 	tB := time.Now()
@@ -350,7 +370,8 @@ func (g *group) runCell(r *rpcCase) {
 	if !seen {
 		vh.Fatalf("cell %s: no unauthenticated reference call", nk)
 	}
-	authreq := !okNone
+	// (a request that carries credentials authenticates itself: its success is judged by the grant it produces)
+	authreq := !okNone && !r.spec.creds
 	line := g.emit(map[string]interface{}{"event": "Call", "s": slotNo(g.sl), "kind": sv.kind, "sess": sv.st, "sel": sv.sel, "role": u.role, "cur": u.cur,
 		"active": u.active, "rpc": r.key(), "target": c.target, "code": code, "err": errText(err), "ok": ok, "authreq": authreq, "creds": r.spec.creds, "effs": effs.list()})
 	w.res.Evaluations++
@@ -374,6 +395,9 @@ func (g *group) runCell(r *rpcCase) {
 			return
 		}
 		sig := signature(k, db, sv, r.key())
+		if len(w.badLines) == 0 || w.badLines[len(w.badLines)-1] != line {
+			w.badLines = append(w.badLines, line)
+		}
 		var reqJSON []string
 		for _, q := range reqs {
 			reqJSON = append(reqJSON, protojson.Format(q))
@@ -381,7 +405,7 @@ func (g *group) runCell(r *rpcCase) {
 		w.res.Violate(sig, fmt.Sprintf("%s as user %s (role %s, current permission %s, active %v) with %s %s selecting %s, request aimed at %s: status %s, observed effects %v; the policy forbids %s on %s",
 			r.key(), u.name, u.role, u.cur, u.active, sv.kind, sv.st, sv.sel, c.target, code, effs.list(), k, db),
 			map[string]interface{}{"line": line, "rpc": r.key(), "role": u.role, "cur": u.cur, "active": u.active, "kind": sv.kind, "session": sv.st,
-				"selection": sv.sel, "target": c.target, "status": code, "effects": effs.list(), "forbidden": effect{k, db}, "requests": reqJSON, "epoch": g.events})
+				"selection": sv.sel, "target": c.target, "status": code, "effects": effs.list(), "forbidden": effect{k, db}, "requests": reqJSON, "detail": w.lastDetail, "epoch": g.events})
 	}
 	for e := range effs {
 		judge(e.K, e.Db, r.spec.creds && e.K == "auth")
@@ -392,7 +416,7 @@ func (g *group) runCell(r *rpcCase) {
 	if len(w.res.Samples) < 4 && len(effs) > 0 {
 		w.res.Sample(map[string]interface{}{"rpc": r.key(), "role": u.role, "kind": sv.kind, "session": sv.st, "selection": sv.sel, "status": code, "effects": effs.list()}, 4)
 	}
-	if r.spec.restore != nil {
+	if r.spec.restore != nil && (prepared || r.spec.prepare == nil) {
 		r.spec.restore(c)
 	}
 	// is the cell's session still what the next cell expects?
@@ -428,7 +452,7 @@ func (g *group) stillValid() bool {
 		return err == nil && classOfDB(sess.GetDatabase().GetName()) == sl.sel && !sess.GetDatabase().IsClosed()
 	}
 	if sl.sel == "none" {
-		return g.w.userInvoke(sl.ctx(), "DatabaseList", &emptypb.Empty{}, &schema.DatabaseListResponse{}) == nil
+		return g.w.userInvoke(sl.ctx(), "ListUsers", &emptypb.Empty{}, &schema.UserList{}) == nil
 	}
 	var st schema.ImmutableState
 	return g.w.userInvoke(sl.ctx(), "CurrentState", &emptypb.Empty{}, &st) == nil && classOfDB(st.Db) == sl.sel
